@@ -697,7 +697,19 @@ func (m *Model) RunHasCustomCases(s *Sink, rule string) {
 		for _, c := range qs {
 			cases++
 			ip := &Interp{m: m, useGlobals: true}
-			res, known := ip.Run(hc, []any{reg, constant.MakeString(kind), constant.MakeString(c.name)})
+			// the three parameters are told apart by their types (registry, receiver type, name), whatever their order
+			args := make([]any, len(hc.Params))
+			for pi, prm := range hc.Params {
+				switch {
+				case strings.HasSuffix(types.TypeString(prm.Type(), nil), "config.Func"):
+					args[pi] = reg
+				case strings.HasSuffix(types.TypeString(prm.Type(), nil), "object.ObjectType"):
+					args[pi] = constant.MakeString(kind)
+				default:
+					args[pi] = constant.MakeString(c.name)
+				}
+			}
+			res, known := ip.Run(hc, args)
 			rc, isC := res.(constant.Value)
 			if !known || !isC || rc.Kind() != constant.Bool || ip.stuck != "" {
 				if undecided == "" {
